@@ -11,6 +11,7 @@ their site; whether they are reached is decided by the machine.
     reaches the planted expression.
 """
 from harness import REPO_SRC  # noqa: E402
+import os
 import random
 import sys
 
@@ -78,5 +79,36 @@ def strict_compile(ctx, progs):
         except Exception as e:
             ctx.violation("non-strict: construction/compilation raised %s\n  template: %r" % (type(e).__name__, c.source),
                           dict(kind="strict", source=c.source))
+    # the same with a module cache shared by both modes: what one mode stored is not what the other mode loads
+    import shutil
+    import tempfile
+    from chameleon.loader import ModuleLoader
+    d = tempfile.mkdtemp(prefix="c19_")
+    try:
+        for k, p in enumerate(progs[::3]):
+            c = C.concretize(p, 0)
+            sub = os.path.join(d, str(k))
+            os.mkdir(sub)
+            for order in ((False, True, False), (True, False, True)):
+                loader = ModuleLoader(os.path.join(sub, "a" if order[0] else "b"))
+                os.makedirs(loader.path, exist_ok=True)
+                for strict in order:
+                    n += 1
+                    try:
+                        PageTemplate(c.source, strict=strict, loader=loader).cook_check()
+                        res = "compiled"
+                    except ExpressionError:
+                        res = "ExpressionError"
+                    except Exception as e:   # noqa
+                        res = type(e).__name__
+                    want = "ExpressionError" if strict else "compiled"
+                    if res != want:
+                        ctx.violation("module cache shared by strict and non-strict compilation (order %s): strict=%s gives %s, expected %s\n"
+                                      "  template: %r" % (list(order), strict, res, want, c.source), dict(kind="strict-cache", source=c.source))
+                        break
+                if len(ctx.violations) > 6:
+                    break
+    finally:
+        shutil.rmtree(d, ignore_errors=True)
     ctx.replays += 2 * n
     ctx.sample({"strict_compile_template": C.concretize(progs[0], 0).source})
